@@ -176,7 +176,7 @@ def findings_of(r, meta):
         elif l.startswith("share-shape-mismatch"):
             out.append(("share-shape", l, False))
         elif l.startswith("tree DIFF"):
-            out.append(("correspondence:tree:" + re.sub(r"[^a-z0-9=:(),]", "", l.split("model=")[1].split(" ")[0])[:40], "model dup_tree(original) differs from the copy's raw tree: " + l[:300], True))
+            out.append(("correspondence:tree:" + re.sub(r"[^a-z0-9=]", "", l.split("model=")[1].split(" ")[0].split(":")[0])[:40], "model dup_tree(original) differs from the copy's raw tree: " + l[:300], True))
         elif l.startswith(("modelwf BAD", "modelview BAD", "tree nosource", "seq nomodel")):
             out.append(("correspondence:view", "the raw tree printed by the harness does not have the shape the model expects: " + l, True))
         elif l.startswith("seq DIFF"):
